@@ -828,17 +828,29 @@ func collectionValidated(p *core.Prog, ds *core.Describer, id core.FieldID) bool
 		if nilSucc < 0 {
 			return
 		}
+		prev := ifi.Block()
 		b := ifi.Block().Succs[nilSucc]
 		for step := 0; step < 6 && b != nil; step++ {
 			for _, x := range b.Instrs {
-				if ret, isRet := x.(*ssa.Return); isRet && len(ret.Results) == 1 && !core.MayBeNilErr(ds, f, ret.Results[0], ret) {
-					ok = true
+				if ret, isRet := x.(*ssa.Return); isRet && len(ret.Results) == 1 {
+					res := ret.Results[0]
+					// what this path hands to a merged return (an inlined helper's result variable)
+					if phi, isPhi := res.(*ssa.Phi); isPhi && phi.Block() == b {
+						for k, pr := range b.Preds {
+							if pr == prev {
+								res = phi.Edges[k]
+							}
+						}
+					}
+					if !core.MayBeNilErr(ds, f, res, ret) {
+						ok = true
+					}
 				}
 			}
 			if len(b.Succs) != 1 {
 				break
 			}
-			b = b.Succs[0]
+			prev, b = b, b.Succs[0]
 		}
 	})
 	return ok
